@@ -370,7 +370,7 @@ pub fn gen_doc(rng: &mut Rng) -> DocD {
     // the other slots then hold taller and shorter fonts than the preview cell
     if rng.chance(1, 2) {
         // one time in four a renamed copy of the stock font: same glyphs as the font a fresh buffer starts with, other name
-        let name = if rng.chance(1, 4) { "renamed stock font" } else { "Font 0" };
+        let name = if (w + h) % 4 == 0 { "renamed stock font" } else { "Font 0" }; // no draw: the stream of the older classes stays as it was
         d.fonts.push(FontD { slot: 0, name: name.into(), height: 16, builtin: Some(0), data: vec![], sauce_name: None });
     } else if rng.chance(1, 3) {
         // built-in pages with long names (more than the 22 characters of the SAUCE font field) in slot 0
